@@ -489,6 +489,18 @@ impl<'a> World<'a> {
                 _ => {}
             }
         }
+        // an id that two flows share: which of them this ack answers cannot be
+        // told from outside, both are let go
+        if let Pk::PubAck { pkid, .. } | Pk::PubRec { pkid, .. } | Pk::PubComp { pkid, .. } = &pk {
+            if self.conns[idx].confused.contains(pkid) {
+                self.rep.probe("exempt_id_shared_by_two_flows");
+                for r in self.reqs.iter_mut() {
+                    if r.wire_id == Some(*pkid) && r.kind == ReqKind::Pub {
+                        r.final_acked = true;
+                    }
+                }
+            }
+        }
         // exemptions of C02: the final ack has been SENT
         let final_for: Option<u16> = match &pk {
             Pk::PubAck { pkid, .. } | Pk::PubComp { pkid, .. } => Some(*pkid),
@@ -954,12 +966,11 @@ impl<'a> World<'a> {
                         if holder.map_or(false, |h| h != ri) || self.conns[idx].out_rel.contains(pkid) {
                             self.conns[idx].confused.insert(*pkid);
                         }
+                        // ... from the first ack the broker sends for that id
+                        // (see `send`); until then both are certainly
+                        // unacknowledged and both must be held
                         if self.conns[idx].confused.contains(pkid) {
-                            self.rep.probe("exempt_id_shared_by_two_flows");
-                            self.reqs[ri].final_acked = true;
-                            if let Some(h) = holder {
-                                self.reqs[h].final_acked = true;
-                            }
+                            self.rep.probe("id_shared_by_two_flows");
                         }
                     }
                     self.cancel_unsol(idx, *pkid, false);
